@@ -908,3 +908,85 @@ def c13(run, selftest=True):
         "(paths with leading ::, turbofish, raw identifiers, keywords; binary / call / closure / block / array / range / tuple / macro expressions; literals of every kind; types; visibility; predicates) "
         "x bare / quoted x 0..2 invisible groups: TLC checks the transcribed dispatch against the declarative accept matrix; every case is converted by the real impl and its token string compared with "
         "the fragment as written or with the string's contents parsed directly by syn; plus the two expression helpers, whole meta items, path lists, vectors of literals and numeric arrays. A case is one (target, fragment, spelling, groups).")
+
+
+# =====================================================================================================
+# C06 / C10 - derive-time totality and validation
+# =====================================================================================================
+
+DO_CFG = """SPECIFICATION Spec
+CONSTANTS
+  Derives <- %(derives)s
+  Shapes <- %(shapes)s
+  ContainerItems <- %(citems)s
+  FieldItems <- %(fitems)s
+  VariantItems <- %(vitems)s
+  MaxContainer = %(mc)d
+  MaxField1 = %(mf1)d
+  MaxField2 = %(mf2)d
+  MaxVariant1 = %(mv1)d
+  MaxVariant2 = %(mv2)d
+  EMIT = TRUE
+INVARIANTS C10_Iff C10_AllOfScope C10_NoInvented EmitDone
+CHECK_DEADLOCK FALSE
+"""
+DO_FOCUS = {
+    # attribute bodies that are not option lists, on container / field / variant positions, all six derives
+    "attr": dict(derives="AllDerives", shapes="AttrShapes", citems="AttrContainer", fitems="AttrField", vitems="AttrVariant", mc=2, mf1=2, mf2=0, mv1=1, mv2=0),
+    # every container option in good and bad form, pairs in both orders, x all six derives x all eight body shapes
+    "cont": dict(derives="ContDerives", shapes="ContShapes", citems="ContainerAlpha", fitems="FieldAlphaSmall", vitems="VariantAlpha", mc=2, mf1=1, mf2=0, mv1=1, mv2=0),
+    # every variant option, pairs on the first variant and one on the second, with and without container from_word
+    "enum": dict(derives="EnumDerives", shapes="EnumShapes", citems="ContainerSmall", fitems="FieldAlphaSmall", vitems="VariantAlpha", mc=1, mf1=0, mf2=0, mv1=2, mv2=2),
+    # every field option in every form: all singles, ordered pairs and ordered triples on one field, one more on a second field
+    "field": dict(derives="FieldDerives", shapes="FieldShapes", citems="ContainerSmall", fitems="FieldAlpha", vitems="VariantAlpha", mc=0, mf1=3, mf2=1, mv1=0, mv2=0),
+}
+
+
+def deriveopts_stage(run, focus, keep, selftest):
+    res = run.tlc("MC_DeriveOptions", DO_CFG % DO_FOCUS[focus], "do_" + focus, workers=8, timeout=3000)
+    run.require_tlc_ok(res, "DeriveOptions (%s)" % focus)
+    r = run.vh("replay", "deriveopts", res["out"], timeout=3000)
+    kept = [m for m in r.get("prop", []) if keep(m)]
+    r2 = dict(r, prop=kept, prop_mismatch=len(kept))
+    run.add_replay_result("deriveopts/" + focus, r2)
+    if selftest:
+        def flip(case):
+            if case["expect"]["impl"] and case["shape"] == "named":
+                case["expect"]["impl"] = False
+                case["expect"]["must_cover"] = [[["f1", 0]]]
+                return True
+            return False
+        tagged_selftest(run, "deriveopts", res["out"], flip, "expect a well-formed declaration to be rejected", ["replay", "deriveopts"])
+    os.remove(res["out"])
+
+
+def is_totality(m):
+    return m.get("panicked") or any(("impl block(s) of the trait" in w) or ("not a sequence of items" in w) for w in m.get("why", []))
+
+
+DO_ASSUME = ["the derives are called as library functions (darling_core::derive::*) on parsed DeriveInputs, not through rustc",
+             "a diagnostic's position is the start of its compile_error! token, located among the ranges of the declaration's option items and members",
+             "option values are written in fixed concrete forms per class (a string that is a valid path, a valid case rule, a path, a closure, word lists, shape-word lists)"]
+DO_RULE = ("declarations are built option item by option item: every container option in good and bad form (pairs, both orders) x six derives x eight body shapes "
+           "(named, named with an `attrs` member, unit, newtype, multi-field tuple, enum, enum without variants, union); every field option in every form - all ordered triples on one field plus "
+           "one option on a second field; every variant option (pairs + one on a second variant) x variant style x container from_word; attribute bodies that are not option lists (bare, name-value, "
+           "literal item, token soup) on container, field and variant positions. TLC checks the transcribed option parsers + validate_body against the declarative set of violated rules; every "
+           "declaration is rendered (one attribute, and one attribute per option) and derived by the real code. A case is one declaration.")
+
+
+@plan("C06")
+def c06(run, selftest=True):
+    run.build()
+    for fo in (["attr", "cont"] if run.tier == "quick" else ["attr", "cont", "enum", "field"]):
+        deriveopts_stage(run, fo, is_totality, selftest and fo == "attr")
+    run.assumptions = DO_ASSUME
+    return run.finish("model_checking", DO_RULE + " For C06 only panics and 'neither exactly one impl nor only diagnostics' count.")
+
+
+@plan("C10")
+def c10(run, selftest=True):
+    run.build()
+    for fo in (["cont", "enum", "field"] if run.tier == "quick" else ["attr", "cont", "enum", "field"]):
+        deriveopts_stage(run, fo, lambda m: not is_totality(m), selftest and fo == "cont")
+    run.assumptions = DO_ASSUME
+    return run.finish("model_checking", DO_RULE)
